@@ -353,6 +353,32 @@ func TestVerifC10(t *testing.T) {
 				}
 			}
 		}
+		// gsfa directories (manifest + pubkey index, no entries) built with the repository's writer for A's
+		// root with B's epoch, and for A's epoch with B's root
+		for vi, v := range variants {
+			gdir := filepath.Join(vdir, fmt.Sprintf("gsfa-%d", vi))
+			gtmp := filepath.Join(vdir, fmt.Sprintf("gsfa-tmp-%d", vi))
+			os.MkdirAll(gtmp, 0o755)
+			meta := indexmeta.Meta{}
+			meta.AddUint64(indexmeta.MetadataKey_Epoch, v.epoch)
+			meta.AddCid(indexmeta.MetadataKey_RootCid, v.root)
+			meta.AddString(indexmeta.MetadataKey_Network, string(indexes.NetworkMainnet))
+			w, err := gsfa.NewGsfaWriter(gdir, meta, v.epoch, v.root, indexes.NetworkMainnet, gtmp)
+			if err != nil {
+				rec.Inconclusive("gsfa variant: " + err.Error())
+				continue
+			}
+			if err := w.Close(); err != nil {
+				rec.Inconclusive("gsfa variant close: " + err.Error())
+				continue
+			}
+			lerr := tryLoad(map[string]string{"gsfa": gdir})
+			rec.Eval(1)
+			if lerr == nil {
+				rec.Violation("epoch-loads-with-foreign-index/gsfa", fmt.Sprintf("a gsfa index built by the repository's writer whose recorded %s is another epoch's / CAR's: the epoch loaded", v.field), c10Case{Seed: seed, Subst: map[string]string{"gsfa": "empty gsfa index with A's identity except the " + v.field}})
+			}
+			rec.Distinct("field/gsfa/" + v.field)
+		}
 		// blocktime index whose recorded epoch field alone is another epoch's (slot range untouched).
 		// Layout written by the repository: magic "blocktimeindex" (14) | start u64 | end u64 | epoch u64 | capacity u64 | values.
 		if raw, err := os.ReadFile(A.Idx.SlotToBlocktime); err == nil && len(raw) > 46 && string(raw[:14]) == "blocktimeindex" {
